@@ -14,6 +14,7 @@ divergence between model and code (a bug in the Rust code in the same place, too
   tools/model_mutate.py list   [--files F,..]                 candidate mutants (no build)
   tools/model_mutate.py run    [--target 260] [--seed N] [--files F,..] [--full-matrix] [--matrix-min M] [--out DIR]
                                [--only ID,..] [--from results.json (re-run the same mutants)] [--survivors-of results.json]
+  tools/model_mutate.py report results.json ...                regenerate REPORT*.md from result files
   tools/model_mutate.py show ID                               print the diff of one mutant
 
 Nothing under coq/ is ever written: mutants live in /tmp/mm-<pid>/ (or $MM_SCRATCH).
@@ -902,27 +903,30 @@ def write_report(result, path):
         L.append(f"| {op} | {len(sub)} | {k} | {len(sub) - k} |")
     L.append("")
     L.append("## Kill rate per property stream\n")
-    L.append("Computed over the mutants with a complete row only (`exposed` = those among them whose mutated file the stream's runner "
-             "depends on; `only killer of` = killed by this stream and by no other).  `first killer` counts, over ALL killed mutants, the "
-             "stream that killed first in the verdict phase (anchor streams of the file are tried first).\n")
-    L.append("| stream | cases | exposed | killed | kill rate | only killer of | first killer |")
+    kfull = [m for m in full if m["verdict"] == "killed"]
+    L.append(f"Computed over the **{len(kfull)} killed mutants that were run against ALL their streams** (a random sample of the killed "
+             "mutants; survivors are killed by no stream by definition and are left out here).  `exposed` = those among them whose "
+             "mutated file the stream's runner depends on; `kills` = how many of these the stream kills on its own; `only killer of` = "
+             "killed by this stream and by no other (what would be lost without the stream).  `first killer` counts, over ALL killed "
+             "mutants, the stream that killed first in the verdict phase (the anchor streams of a file are tried first).\n")
+    L.append("| stream | cases | exposed | kills | share | only killer of | first killer |")
     L.append("|---|---|---|---|---|---|---|")
     for s in result["streams"]:
-        sub = [m for m in full if s in m["streams"]]
+        sub = [m for m in kfull if s in m["streams"]]
         k = [m for m in sub if m["streams"][s]["status"].startswith("killed")]
         only = [m for m in k if len(m["killed_by"]) == 1]
         fk = sum(1 for m in ms if m["killed_by"] and m["killed_by"][0] == s)
         if sub:
             L.append(f"| {s} | {result['streams'][s]['evaluations']} | {len(sub)} | {len(k)} | {100.0 * len(k) / len(sub):.0f} % | {len(only)} | {fk} |")
     L.append("")
-    L.append("## Kill matrix: model file x stream (killed / exposed, mutants with a complete row)\n")
+    L.append("## Kill matrix: model file x stream (kills / exposed, killed mutants with a complete row)\n")
     ss = list(result["streams"])
     L.append("| file | " + " | ".join(ss) + " |")
     L.append("|---|" + "---|" * len(ss))
     for f in files:
         row = []
         for s in ss:
-            sub = [m for m in full if m["file"] == f and s in m["streams"]]
+            sub = [m for m in kfull if m["file"] == f and s in m["streams"]]
             k = sum(1 for m in sub if m["streams"][s]["status"].startswith("killed"))
             row.append(f"{k}/{len(sub)}" if sub else "")
         L.append(f"| {f} | " + " | ".join(row) + " |")
@@ -961,6 +965,8 @@ def main():
     a.add_argument("-v", "--verbose", action="store_true")
     a = sub.add_parser("show")
     a.add_argument("id")
+    a = sub.add_parser("report")
+    a.add_argument("json", nargs="+")
     a = sub.add_parser("run")
     a.add_argument("--target", type=int, default=260)
     a.add_argument("--seed", type=int, default=1)
@@ -985,6 +991,10 @@ def main():
         return cmd_show(args)
     if args.cmd == "run":
         return cmd_run(args)
+    if args.cmd == "report":
+        for p in args.json:
+            write_report(json.load(open(p)), os.path.join(os.path.dirname(p), os.path.basename(p)[:-5].replace("results", "REPORT") + ".md"))
+        return 0
     ap.print_help()
     return 2
 
